@@ -24,6 +24,8 @@ MODULES = {
     "C06": "vlib.props.c06",
     "C07": "vlib.props.c07",
     "C14": "vlib.props.c14",
+    "C15": "vlib.props.c15",
+    "C16": "vlib.props.c16",
 }
 
 
